@@ -20,6 +20,9 @@ Engine A (bounded-exhaustive inputs, independent oracle in ``vf.c20_model``):
               Another block puts attribute look-ups (q.r, q[p].r) whose attribute NAME ranges
               over the identifier names into rhs, lhs index and condition: attributes are not
               identifiers and must survive.
+              Another block puts calls q(r) whose FUNCTION SYMBOL ranges over the identifier
+              names into rhs, lhs index and condition (function symbols are identifiers or
+              not -- whichever the library says for ``x <- f(y)`` -- but uniformly).
               Another block varies how the caller's filter expresses yes / no (bool, match
               object / None, count, numpy bool, name / empty string): only truthiness counts.
 * ``dot``     every labelled DAG on <= 4 (quick) / 5 (thorough) statements: the edges drawn by
@@ -233,6 +236,13 @@ def bodies_over(names, templates):
                     out.append(("A", p, ("Lookup", q, ("str", r[1][1])), None))
                     out.append(("CA", Sub(p, ("Lookup", q, ("str", r[1][1]))), M.ZERO,
                                 Lt(("Lookup", Sub(q, p), ("str", r[1][1])), M.ZERO)))
+                if "T6" in templates:
+                    # calls whose FUNCTION SYMBOL is one of the identifier names, in the rhs, in
+                    # the lhs index, in the condition
+                    call = Call(q, r)
+                    out.append(("A", p, call, None))
+                    out.append(("A", Sub(p, call), M.ZERO, None))
+                    out.append(("CA", p, M.ZERO, Lt(call, M.ZERO)))
                 if "T4" in templates:
                     for s in V:
                         out.append(("CA", Sub(p, q), Sum(r, ("int", 1)), Lt(s, M.ZERO)))
@@ -286,8 +296,10 @@ def disamb_lists(tier):
     single = [stream_of((b,)) for b in small]
     double = [stream_of((b, c)) for b in small for c in small]
     looks = [stream_of((b,)) for b in bodies_over(DISAMB_NAMES[tier], ("T5",))]
+    calls = [stream_of((b,)) for b in bodies_over(DISAMB_NAMES[tier], ("T6",))]
     return [(one, one, DISAMB_FILTERS), (one, looks, DISAMB_FILTERS),
-            (looks, one, DISAMB_FILTERS), (single, double, DISAMB_FILTERS),
+            (looks, one, DISAMB_FILTERS), (single, calls, DISAMB_FILTERS),
+            (calls, single, DISAMB_FILTERS), (single, double, DISAMB_FILTERS),
             (double, single, DISAMB_FILTERS), (*twin_lists(), DISAMB_FILTERS),
             (single, single, DISAMB_STYLE_FILTERS)]
 
@@ -297,7 +309,8 @@ def disamb_lists(tier):
 # {{{ bfs family: pool and menu
 
 # P0: written aggregate z, x written and in an lhs index; typed twins y + 1 / y + 1.0.
-# P1: z only in a condition; redundant dependency s2 -> s0.
+# P1: z only in a condition, as argument of a call whose function symbol x_0 is a variable of
+#     P2; redundant dependency s2 -> s0.
 # P2: generated-looking names s0_0 / x_0, dependency on a later id; hash-colliding twins
 #     x + -1 / x + -2.
 # P3: a lone no-op.
@@ -306,7 +319,7 @@ def disamb_lists(tier):
 # P5: z only in an lhs index.
 POOL = (
     (A("s0", X, Sum(Y, ("int", 1))), A("s1", Sub(Z, X), Sum(Y, ("float", 1.0)), ["s0"])),
-    (CA("s0", Y, X, Lt(Z, M.ZERO)), N("s1", ["s0"]), A("s2", X, Y, ["s0", "s1"])),
+    (CA("s0", Y, X, Lt(Call(X0, Z), M.ZERO)), N("s1", ["s0"]), A("s2", X, Y, ["s0", "s1"])),
     (A("s0_0", X0, Sum(X, ("int", -1))), A("s0", Y, Prod(Sum(X, ("int", -2)), X0), ["s0_0"])),
     (N("s1"),),
     (CA("s2", Sub(Z, Y), ("Lookup", X, ("str", "y")), Lt(Y, Z)), A("s0", X, ("int", 1), ["s2"])),
@@ -430,7 +443,8 @@ class C20(Check):
         "order (run under the first hash seed only), and with every set of "
         "shortcut edges in natural and reversed order. Attribute look-ups q.r and q[p].r with r "
         "ranging over the identifier names occur in rhs, lhs index and condition of a further "
-        "block of bodies. Filters of the disamb family additionally "
+        "block of bodies; likewise calls q(r) whose function symbol ranges over the identifier "
+        "names. Filters of the disamb family additionally "
         "answer in 4 non-bool styles (match object / None, count, numpy bool, name / empty "
         "string) x {all, none, {x}} over the reduced single-statement bodies. distinct_nontrivial counts "
         "distinct cases: statements whose reference read set is non-empty (rw), stream pairs "
@@ -441,9 +455,14 @@ class C20(Check):
         "inputs are well-formed: ids distinct within a stream, dependencies refer to ids of the "
         "same stream, dependency relation acyclic; lhs is a variable or a subscript of a variable",
         "read-set clause is read as required <= reported <= permitted: required = variables in "
-        "the rhs, in the index of a subscripted lhs and in the condition outside call-function "
-        "position; permitted adds the written name and call-function names (not settled by the "
-        "statement); the written set must equal {assigned name}",
+        "the rhs, in the index of a subscripted lhs and in the condition; permitted adds the "
+        "written name (not settled by the statement); the written set must equal {assigned name}",
+        "whether the function symbol of a call is an identifier is not settled by the statement: "
+        "both conventions are accepted, but uniformly -- the convention is read off the plain "
+        "assignment x <- f(y) and every position (lhs index, condition), statement class and "
+        "the disambiguation must follow it; a name that is both a variable and a function "
+        "symbol of the second stream may keep or follow the variable's renaming in function "
+        "position",
         "the statement does not require ids that do not clash to keep their names, nor fix the "
         "form of fresh names; neither is demanded",
         "statements are observed field by field (class, id, lhs, rhs, condition via "
